@@ -138,7 +138,7 @@ var labelRe = regexp.MustCompile(`^([A-Za-z_][A-Za-z0-9_\-]*):\s+(.*)$`)
 var typeinvRe = regexp.MustCompile(`^\(\s*(\w+)\s+\*(\w+)\s*\)\s*=\s*(.*)$`)
 var guardRe = regexp.MustCompile(`^(?:(\w+)\.)?(\w+)\s+by\s+(?:(\w+)\.)?(\w+)$`)
 var ghostAtRe = regexp.MustCompile(`^(\w+)\s*=\s*(.*?)\s+after\s+([\w.$]+(?:#\d+)?)$`)
-var assertAtRe = regexp.MustCompile(`^(.*?)\s+(before|after)\s+([\w.$]+(?:#\d+)?)$`)
+var assertAtRe = regexp.MustCompile(`^(.*?)\s+(before|after)\s+([\w.$]+(?:#(?:\d+|\*))?)$`)
 var funcHdrRe = regexp.MustCompile(`^func\s+(?:\(\s*(\w+)?\s*(\*?)\s*([\w]+)\s*\)\s*)?([\w$]+)\s*$`)
 
 type rawLine struct {
@@ -409,7 +409,11 @@ func (sp *Specs) LoadSpecFile(path, pkgName string) {
 			if c := mkClause(l, m[1]); c != nil {
 				aa := AssertAt{Clause: c, Callee: m[3], Ord: 1, After: m[2] == "after"}
 				if i := strings.Index(aa.Callee, "#"); i >= 0 {
-					fmt.Sscanf(aa.Callee[i+1:], "%d", &aa.Ord)
+					if aa.Callee[i+1:] == "*" {
+						aa.Ord = 0 // every call
+					} else {
+						fmt.Sscanf(aa.Callee[i+1:], "%d", &aa.Ord)
+					}
 					aa.Callee = aa.Callee[:i]
 				}
 				cur.Asserts = append(cur.Asserts, aa)
